@@ -112,11 +112,26 @@ func c10Expect(slot *ast.Node, out *[]c10Event) {
 	*out = append(*out, c10Event{true, slot, n})
 	v := reflect.ValueOf(n).Elem()
 	t := v.Type()
+	// "every node exactly once": when one node object sits in two slots of the same parent (the parser builds
+	// `a ?: b` with the condition as first branch too) it is one node of the tree and is visited through the
+	// first slot only
+	var seen []ast.Node
 	for i := 0; i < t.NumField(); i++ {
 		f := t.Field(i)
 		fv := v.Field(i)
 		if f.Type == nodeIface {
 			if !fv.IsNil() {
+				child := fv.Interface().(ast.Node)
+				dup := false
+				for _, s := range seen {
+					if s == child {
+						dup = true
+					}
+				}
+				if dup {
+					continue
+				}
+				seen = append(seen, child)
 				c10Expect(fv.Addr().Interface().(*ast.Node), out)
 			}
 		} else if f.Type.Kind() == reflect.Slice && f.Type.Elem() == nodeIface {
